@@ -19,6 +19,7 @@ RULE = ("cases = recurrence descriptions (mode, notation 1/3/4, repetitions "
         "ones consumed to 12 points; plus the three notations of one finite "
         "exact series; non-trivial = at least two points were yielded; "
         "distinct by the description")
+RUN_REPO_SUITE = True   # thorough tier: repo tests under these monitors
 DECIDING = ["series.checked", "init.post", "three-notations"]
 MIN_EVALS = {"series.checked": 2500, "init.post": 2500,
              "three-notations": 300}
